@@ -30,7 +30,7 @@ CLAIMS = {
  'C11': (E1, T_E1, '2/C11', 'Accounting conjunct of the invariant (every slot exactly one of sentinel / in tree / free once) re-established by every mutating step, clear frees every slot, buffer length changes only in the growth step (free list empty = all slots in use) and then by the free list capacity <= 2*len, which bounds storage by 3*(peak+1).', 'RawVec growth policy modelled (amortised doubling); bounds as C02'),
  'C12': (E1 + ' ; ' + E2 + ' ; ' + E3, T_E1 + ' ; lists: ' + T_E2 + ' ; segment tree: ' + T_E3, '2/C12', 'Trees: clear step => empty abstraction, all slots free, invariant; every other step already quantifies over arbitrary free-slot garbage and free-list order, so later behaviour is a function of the abstraction alone; histories with clear in the middle incl. a restarted clock. Lists and segment tree: Kani, state after clear equals that of new (buffers empty, cached expiration = MAX, every place empty) and a later insert/query behaves as on a fresh instance.', 'bounds as C01; lists <= 3 entries; segment tree <= 2 values'),
  'C13': (E2, T_E2, '2/C13', 'Kani steps from every sorted duplicate-free buffer of <= 3 entries (symbolic contents, built through the verif_from_raw hook; key list: any cached earliest expiration that is a lower bound) for every trait method of MapList, SetList, KeyExpList against the closed-form reference of C01/C04-C09; neighbour steps past either end give the sentinel.', '<= 3 stored entries; unwind 6 with unwinding assertions'),
- 'C14': (E2, T_E2, '2/C14', 'Kani on Layout::new/index/count through read-only hook wrappers with fully symbolic (lo, hi, x, y): Some iff > 16 points, index(lo)=0, index(hi)<32, monotone, common power-of-two width (smallest covering), count = index(hi)+32, every mask bit below count - for all i32, all u32 and all i64 domains whose length fits: no bound on the domain. SegExpTree::new Some/None and single-point insert/query at lo and hi through the public API for domains up to 40 points.', 'public-API part bounded to 40-point domains (vec! loop)'),
+ 'C14': (E2 + ' ; ' + E3, T_E2 + ' ; public API: ' + T_E3, '2/C14', 'Kani on Layout::new/index/count through read-only hook wrappers with fully symbolic (lo, hi, x, y): Some iff > 16 points, index(lo)=0, index(hi)<32, monotone, common power-of-two width (smallest covering), count = index(hi)+32, every mask bit below count - for all i32, all u32 and all i64 domains whose length fits: no bound on the domain. Through the public API (MIR executor): SegExpTree::new is Some iff > 16 points and single-point / whole-domain inserts and queries at lo, hi and the middle behave and stay in bounds for 19 concrete domains (14..17 points, 2^k and 2^k+1, negative, partial last bucket, the full i32 range).', 'public-API part: concrete domain family (a fully symbolic SegExpTree::new harness ran CBMC out of memory after 990 s)'),
  'C15': (E2 + ' ; ' + E3, T_E2 + ' ; observed through the tree: ' + T_E3, '2/C15', 'Kani, all four bucket bounds symbolic: place & visit != 0 iff ranges overlap; places tile [a,b] (exactly one ancestor-or-self per bucket inside, none outside); popcount <= 8; bit 63 clear - the whole finite space in one query; through the tree: one insert stores exactly one copy at each place of the mask.', 'none beyond the trusted base (rustc -> Kani -> CBMC)'),
  'C16': (E3, T_E3, '3/C16', 'Same histories as C03; after every fully consumed whole-domain query at symbolic time t: every stored copy has expiration >= t, and every value with expiration >= t still has all its copies (none lost).', 'as C03'),
  'C17': (E1, T_E1, '2/C17', 'Insert step on map and set: every in-tree slot stays in the tree with the same key and value (insert never moves entities); histories: handle taken, insertion(s), read through the handle and re-lookup give the same entry.', 'bounds as C01'),
